@@ -254,6 +254,8 @@ type c03Setup struct {
 	patch  []byte
 	oldDir string // pristine old build (never modified)
 	pair   *lib.Pair
+	stale  bool // old-build pools hand a just-used reader back at an arbitrary position
+	nrun   uint64
 }
 
 // newRun creates a brand-new patcher + bowl over workDir. For the fresh bowl workDir is
@@ -277,6 +279,10 @@ func (su *c03Setup) newRun(workDir string, pool func(lake.Pool) lake.Pool) (patc
 	}
 	if err != nil {
 		return nil, nil, nil, fmt.Errorf("new bowl: %w", err)
+	}
+	if su.stale {
+		su.nrun++
+		tp = &lib.StalePool{Inner: tp, Rng: lib.NewRng(lib.Mix(su.spec.PairSeed, 31, su.nrun))}
 	}
 	if pool != nil {
 		tp = pool(tp)
@@ -355,7 +361,10 @@ func c03Run(c lib.Case, env *lib.Env) lib.Result {
 		}
 		patch = ob.Bytes()
 	}
-	su := &c03Setup{spec: s, patch: patch, oldDir: oldDir, pair: pair}
+	su := &c03Setup{spec: s, patch: patch, oldDir: oldDir, pair: pair, stale: c.ID%2 == 1}
+	if su.stale {
+		res.Add("combinations_over_stale_position_pools", 1)
+	}
 	combo := fmt.Sprintf("%s|%s|opt=%v|%s", s.Family, s.Bowl, s.Optimized, s.Comp)
 
 	// ---- U: uninterrupted always-save run, recording checkpoints and snapshots
